@@ -1,5 +1,5 @@
 """C20 — keys: exact size, private, never overwritten; HKDF per RFC 5869; whole-file keying."""
-import re
+import random
 import hashlib, hmac as pyhmac, json, os, re, shutil, stat, struct, subprocess, threading
 from concurrent.futures import ThreadPoolExecutor
 import vlib
@@ -178,6 +178,7 @@ def gen_umask(ctx):
     return [("UMASK", u) for u in range(512)]
 
 
+EXIST_EXTRA_OPTS = [[], ["-v"], ["--verbose"], ["-c"], ["--create", "-v"]]
 EXIST_VARIANTS = ["reg644", "reg600", "reg400", "empty", "longer", "hardlink", "symlink", "dangling"]
 
 
@@ -186,10 +187,11 @@ def gen_exist(ctx):
     cases = []
     for v in EXIST_VARIANTS:
         for force in (0, 1):
-            for (u, bits) in [(0o022, 1024), (0o077, 256), (0, 8192)] + ([(0o777, 257), (0o027, 4096), (0o002, 2048)] if ctx.thorough else []):
-                cases.append(("EXIST", v, force, u, bits))
+            for i, (u, bits) in enumerate([(0o022, 1024), (0o077, 256), (0, 8192)] + ([(0o777, 257), (0o027, 4096), (0o002, 2048)] if ctx.thorough else [])):
+                # the third field is force + 2 * (index into EXIST_EXTRA_OPTS): "unless --force is given" holds whatever ELSE is given
+                cases.append(("EXIST", v, force + 2 * ((i + len(v)) % len(EXIST_EXTRA_OPTS)), u, bits))
     for _ in range(40 if ctx.thorough else 8):
-        cases.append(("EXIST", rng.choice(EXIST_VARIANTS), rng.randrange(2), rng.randrange(512), rng.randrange(256, 8193)))
+        cases.append(("EXIST", rng.choice(EXIST_VARIANTS), rng.randrange(2 * len(EXIST_EXTRA_OPTS)), rng.randrange(512), rng.randrange(256, 8193)))
     # absent target with --force (unlink -> ENOENT must be ignored)
     cases.append(("EXIST", "absent", 1, 0o022, 1024))
     cases.append(("EXIST", "absent", 0, 0o022, 1024))
@@ -459,6 +461,8 @@ def do_umask(rn, c, dfl):
 
 def do_exist(rn, c):
     _, variant, force, u, bits = c
+    extra_opts = EXIST_EXTRA_OPTS[(force >> 1) % len(EXIST_EXTRA_OPTS)]
+    force &= 1
     d = rn.fresh()
     p = os.path.join(d, "k")
     side = None
@@ -480,21 +484,21 @@ def do_exist(rn, c):
         os.symlink(os.path.join(d, "nowhere"), p)
     before, before_side = snap(p), (snap(side) if side else None)
     names_before = sorted(os.listdir(d))
-    args = ["-k", p, "-b", str(bits)] + (["-f"] if force else [])
+    args = extra_opts + ["-k", p, "-b", str(bits)] + (["-f"] if force else [])
     rc, err = rn.run(rn.mk, args, umask=u)
     after, after_side = snap(p), (snap(side) if side else None)
     names_after = sorted(os.listdir(d))
     nowhere = snap(os.path.join(d, "nowhere"))
     shutil.rmtree(d, True)
     n = (bits + 7) // 8
-    obs = {"rc": rc, "before": before and (before[0], "%o" % before[1], before[3]), "after": after and (after[0], "%o" % after[1], after[3], len(after[4] or b"")),
+    obs = {"rc": rc, "options": " ".join(extra_opts + (["-f"] if force else [])), "before": before and (before[0], "%o" % before[1], before[3]), "after": after and (after[0], "%o" % after[1], after[3], len(after[4] or b"")),
            "stderr": err[-200:]}
     why = None
     if san_abort(rc, err):
         why = "mungekey aborts under ASan/UBSan"
     elif before is not None and not force:
         if rc == 0:
-            why = "existing %s target: mungekey without --force reports success" % variant
+            why = "existing %s target: mungekey %s(no --force) reports success" % (variant, " ".join(extra_opts) + " " if extra_opts else "")
         elif after != before:
             why = "existing %s target was modified without --force" % variant
         elif side and after_side != before_side:
@@ -645,13 +649,16 @@ def run(ctx):
     noshift = ["-fno-sanitize=shift-base"]
     jobs = {
         "hkdfh": ([os.path.join(vlib.HARNESS, "hkdf_harness.c")] + [os.path.join(R, "src/common", f) for f in ("crypto.c", "hkdf.c", "mac.c", "md.c")] + lib, [], libs),
+        "hkdfhf": ([os.path.join(vlib.HARNESS, "hkdf_harness.c"), os.path.join(vlib.HARNESS, "mac_fault.c")]
+                   + [os.path.join(R, "src/common", f) for f in ("crypto.c", "hkdf.c", "mac.c", "md.c")] + lib,
+                   ["-Wl,--wrap=mac_init,--wrap=mac_update,--wrap=mac_final,--wrap=mac_cleanup"], libs),
         "mungekey": (mk_src + lib, noshift, libs),
         "mungekey_wrapped": (mk_src + lib + [os.path.join(vlib.HARNESS, "keywrap.c")],
                              noshift + ["-Wl,--wrap=getrandom,--wrap=getentropy,--wrap=entropy_read_uint"], libs),
         "subkeysh": ([os.path.join(vlib.HARNESS, "subkeys_harness.c")] + md_src + lib, noshift, libs + ["-lbz2", "-lz", "-lrt"]),
     }
     built = {}
-    with ThreadPoolExecutor(4) as ex:
+    with ThreadPoolExecutor(5) as ex:
         futs = {k: ex.submit(vlib.cc, ctx, k, v[0], v[1], v[2]) for k, v in jobs.items()}
         for k, f in futs.items():
             built[k] = f.result()
@@ -660,7 +667,8 @@ def run(ctx):
             ctx.violation("%s does not build against /repo: %s" % (k, err[-400:]),
                           {"obligation": "correspondence C20 (build %s)" % k, "stderr": err}, found_input=False)
             return
-    ctx.log("oracle + 4 programs built from %s" % R)
+    ctx.log("oracle + 5 programs built from %s" % R)
+    hkf = built["hkdfhf"][0]
     hk, mk, mkw, sk = (built[k][0] for k in ("hkdfh", "mungekey", "mungekey_wrapped", "subkeysh"))
     rn = Runner(ctx, mk, mkw)
 
@@ -705,6 +713,42 @@ def run(ctx):
         for (md, ikm, salt, info, L, okm), o in zip(RFC_VECTORS, impl):
             if not ctx.replay and o.split()[-1] != okm:
                 direct_fail.append(("H %d %s %s %s %d" % (md, ikm, salt, info, L), o[:300], "hkdf() fails RFC 5869 Appendix A test vector"))
+        # failing MAC-library calls inside hkdf(): an error may be reported, a wrong key may not
+        fcases = []
+        pool = [l for l in hcases if l.split()[2] != "*" and int(l.split()[5]) > 0 and int(l.split()[1]) in MD]
+        frng = random.Random(ctx.seed * 77 + 5)
+        for l in frng.sample(pool, min(len(pool), 120 if ctx.thorough else 30)):
+            for op in (0, 1, 2, 3):
+                for k in ((1, 2, 3, 4, 5, 7) if op == 1 else (1, 2, 3)):
+                    fcases.append("HF %d %d %s" % (op, k, l[2:]))
+        if fcases and not ctx.replay:
+            rcf, implf, stderrf = vlib.run_lines([hkf], fcases, timeout=900)
+            if rcf != 0 or len(implf) != len(fcases):
+                idx = min(len(implf), len(fcases) - 1)
+                ctx.violation("hkdf() aborts under ASan/UBSan when a MAC-library call fails, at case %s" % fcases[idx][:200],
+                              {"case_line": fcases[idx], "stderr": stderrf[-3000:], "rc": rcf})
+                return
+            opn = ("mac_init", "mac_update", "mac_final", "mac_cleanup")
+            nf = 0
+            for l, o in zip(fcases, implf):
+                ctx.count(l)
+                f, of = l.split(), o.split()
+                if len(of) != 6 or of[0] != "HF":
+                    direct_fail.append((l, o[:300], "malformed harness answer"))
+                    continue
+                fired, plain = of[1] == "1", " ".join(of[2:])
+                nf += fired
+                hl = "H " + " ".join(f[3:])
+                if fired and of[3] == "0" and int(f[1]) != 3:
+                    why = hkdf_property(hl, plain)
+                    direct_fail.append((l, o[:300], "hkdf() reports success although call #%s of %s inside it failed%s" % (
+                        f[2], opn[int(f[1])], ": the key it hands out is NOT the RFC 5869 value (e.g. expanded from a PRK that was never computed)" if why else "")))
+                elif of[3] == "0":
+                    why = hkdf_property(hl, plain)
+                    if why:
+                        direct_fail.append((l, o[:300], why + " (with a failing %s)" % opn[int(f[1])]))
+            dist["HF"] = len(fcases)
+            dist["HF-fired"] = nf
         ctx.log("hkdf(): %d cases, %d property failures" % (len(hcases), len(direct_fail)))
         for l in hcases[:2] + hcases[len(hcases) // 2:len(hcases) // 2 + 1]:
             ctx.sample(l[:200])
